@@ -25,11 +25,13 @@ def main():
         else:
             a = a[1:]
     src = f"/tmp/seed-{prop}/SEED/{var}"
+    if not os.path.isdir(src):
+        src = f"/verif/seeded/{prop}-{var}"   # already stored: re-run from the stored copy
     name = f"{prop}-{var}"
     dst = f"/verif/seeded/{name}"
     os.makedirs(dst, exist_ok=True)
     for f in ("patch.diff", "demo_test.go", "README.md"):
-        if os.path.exists(os.path.join(src, f)):
+        if os.path.exists(os.path.join(src, f)) and os.path.abspath(src) != os.path.abspath(dst):
             shutil.copy(os.path.join(src, f), os.path.join(dst, f))
     meta = {"property": prop, "variant": var, "demo_pkg_dir": pkgdir, "demo_run": pattern, "needs_to_manifest": what, "ran": []}
     wt = f"/tmp/confirm-{name}"
